@@ -54,6 +54,18 @@ class C04(Check):
                           'non-trivial = calls whose arguments include at least one out-of-range or extreme value',
                      distinct_nontrivial=sum(1 for l in ls if re.search(r'-?2147483\d{3}|65536', l)), sanitizer_aborts=died,
                      samples=[dict(call=ls[i], impl=a[i]) for i in (1, len(ls) // 2, len(ls) - 1)])
+        # the Kissel-dependent functions index their tables only when the table is filled: once more on the regenerated configuration
+        KRE = re.compile(r'Kissel|Photo_Total|Photo_Partial|^ElectronConfig$|^P[LM]\d_')
+        kls = [l for l in ls if KRE.search(l.split(' ')[0])]
+        if kls:
+            try:
+                suf = ctx.build_kissel_config('real')
+                for l, x in zip(kls, ctx.run_c(kls, exe=ctx.sc.path('cdrv' + suf))):
+                    if x.startswith('died'):
+                        died += 1; viol.append(dict(key=l + '  @real', got=x, expected='no undefined access', what='sanitizer abort in the real library (regenerated Kissel table)'))
+                stats['kissel_regenerated_calls'] = len(kls)
+            except core.BuildError as ex:
+                viol.append(dict(key='regenerated-Kissel configuration', got=str(ex)[:300], expected='builds', what='data/kissel -> kissel_pe.dat -> prdata'))
         try:
             hn, hv, hst = heap_search(self, ctx)
         except core.BuildError as ex:
